@@ -92,6 +92,14 @@ theorem trace_wrapAll (rev : List Mw) (t : RT) :
     rw [ih]
     simp [trace]
 
+theorem roundTrip_wrapAll (rev : List Mw) (t : RT) (o : RTOut) :
+    roundTrip (wrapAll rev t) o = roundTrip t o := by
+  induction rev generalizing t with
+  | nil => rfl
+  | cons m ms ih =>
+    simp only [wrapAll, List.foldl_cons] at ih ⊢
+    rw [ih]; rfl
+
 /-! ### the registry -/
 
 theorem firstReg_append (t : TypeId) (a b : List Op) :
